@@ -68,11 +68,6 @@ def where_group(where: str) -> str:
     return "description" if where.endswith("-doc") else where
 
 
-# (text kind, fragment class[+form]) of the defects found so far: /verif/proposed_fixes/C20-*.diff, known_findings.jsonl.
-# 'mixed' models are generated without them.
-KNOWN_TRIGGERS = set()  # type: set
-
-
 def trigger_key(fragment: str, where: str, form: str) -> Tuple[str, str]:
     fc = fragment_class(fragment, form)
     if form in ("text-at-end", "literal", "constraint-id"):
@@ -81,8 +76,15 @@ def trigger_key(fragment: str, where: str, form: str) -> Tuple[str, str]:
 
 
 def is_known_trigger(fragment: str, where: str, form: str) -> bool:
-    grp, fc = trigger_key(fragment, where, form)
-    return (grp, fc) in KNOWN_TRIGGERS or (grp, fc.split("@")[0] + "@*") in KNOWN_TRIGGERS
+    """Fragments that trigger the defects found so far (proposed_fixes/C20-*.diff, known_findings.jsonl).
+
+    'mixed' models are generated without them, so that whatever fails there is something new:
+    a double quote may end a Python docstring; ``*/`` closes Java/TypeScript documentation comments; ``\\u`` is an
+    illegal unicode escape in Java comments; a trailing backslash splices a C++ ``///`` line with the next line.
+    """
+    if where_group(where) == "description":
+        return '"' in fragment or "*/" in fragment or "\\u" in fragment or fragment.endswith("\\")
+    return False
 
 
 @st.composite
@@ -226,18 +228,58 @@ def nearest_plant(root: pathlib.Path, diag: Diag, plants: Dict[str, List[str]], 
     return None
 
 
+def _read_lines(root: pathlib.Path, rel: str) -> List[str]:
+    try:
+        return (root / rel).read_text(encoding="utf-8", errors="replace").split("\n")
+    except OSError:
+        return []
+
+
+def refine_cause(target: str, root: pathlib.Path, diag: Diag) -> Optional[str]:
+    """Recognise the signature of a root cause that is already understood (else None)."""
+    lines = _read_lines(root, diag.file)
+    at = lines[diag.line - 1] if 0 < diag.line <= len(lines) else ""
+    if target == "cpp" and diag.code == "line-comment-ends-with-backslash":
+        return "line-comment-ends-with-backslash"
+    if target == "python" and diag.code.startswith("SyntaxError:unterminated") and at.rstrip().endswith('""""'):
+        return "docstring-ends-with-double-quote"
+    if target == "java" and diag.code == "javac:illegal.unicode.esc":
+        st_ = at.lstrip()
+        return "backslash-u-in-doc-comment" if (st_.startswith("*") or st_.startswith("/*") or st_.startswith("//")) \
+            else "backslash-u-outside-comment"
+    if target in ("java", "typescript") and diag.line > 0:
+        # the last documentation comment opened at or before the reported line: was it closed by a "*/" that is
+        # followed by more comment-looking text?
+        hi = min(len(lines), diag.line)
+        start = None
+        for idx in range(hi - 1, max(-1, hi - 80), -1):
+            if lines[idx].lstrip().startswith("/**"):
+                start = idx
+                break
+        if start is not None:
+            for idx in range(start, min(len(lines), start + 80)):
+                pos = lines[idx].find("*/")
+                if pos >= 0:
+                    rest = lines[idx][pos + 2:].strip()
+                    nxt = next((ln.strip() for ln in lines[idx + 1:idx + 3] if ln.strip()), "")
+                    if rest != "" or nxt.startswith("*"):
+                        return "comment-close-in-doc-comment"
+                    break
+    return None
+
+
 def text_bucket(target: str, root: pathlib.Path, diag: Diag, plants: Dict[str, List[str]], mode: Dict[str, Any]) -> str:
     kind = file_kind(target, diag.file)
+    cause = refine_cause(target, root, diag)
+    if cause is not None:
+        return f"{target}:{kind}:{cause}"
     pl = nearest_plant(root, diag, plants)
     if mode.get("mode") == "single":
         group = None
         if pl is not None:
             group = where_group(pl[2])
         else:
-            try:
-                blob = (root / diag.file).read_text(encoding="utf-8", errors="replace")
-            except OSError:
-                blob = ""
+            blob = "\n".join(_read_lines(root, diag.file))
             groups = {where_group(plants[f"mk{n}q"][2]) for n in _MARKER_RE.findall(blob) if f"mk{n}q" in plants}
             if len(groups) == 1:
                 group = groups.pop()
